@@ -69,7 +69,7 @@ def entry(pid, c):
 NA_REASON = "check under construction in this round (the specification suite is being extended property by property); not claimed yet"
 man = {
  "version": 1,
- "setup_cmd": "cd /verif && /venv/bin/python -c \"import sys; sys.path.insert(0,'/verif'); import hypergraph, harness.build\" && tla-sany spec/Predict.tla > /dev/null",
+ "setup_cmd": "cd /verif && /venv/bin/python -c \"import sys; sys.path.insert(0,'/verif'); import hypergraph, harness.build\" && cd /verif/spec && tla-sany Predict.tla > /dev/null && tla-sany HGSched.tla > /dev/null",
  "hooks": {"guard": "HYPERGRAPH_VERIF", "enable": "no source hooks: observation uses harness-generated node bodies, the public EventProcessor/CacheBackend APIs and a controlled asyncio driver",
            "baseline_off_cmd": "cd /repo && /venv/bin/python -m pytest -ra -q -p no:cacheprovider --timeout=900 --continue-on-collection-errors",
            "source_commits": [], "add_only": True},
